@@ -346,6 +346,9 @@ func check(prop, tier string) int {
 	if workers == 0 {
 		workers = 6
 	}
+	if meta.Race {
+		selfEvery = 0 // parallel-round mode does not replay exactly
+	}
 	var mu sync.Mutex
 	var sums []WorkerSummary
 	var viols []RunResult
@@ -361,10 +364,17 @@ func check(prop, tier string) int {
 			lines, out, err := runWorker(bin, job, scratch, fmt.Sprintf("w%d", w), time.Duration(wall*6+120)*time.Second)
 			mu.Lock()
 			defer mu.Unlock()
-			if err != nil {
+			gotSummary := false
+			for _, m := range lines {
+				if kind(m) == "summary" {
+					gotSummary = true
+				}
+			}
+			if err != nil && !(meta.Race && gotSummary) {
+				// (under -race a worker that saw a race report exits 1 after finishing its runs)
 				trouble = append(trouble, err.Error()+"\n"+tail(out, 60))
 			}
-			gotSummary := false
+			gotSummary = false
 			for _, m := range lines {
 				switch kind(m) {
 				case "summary":
@@ -423,6 +433,7 @@ func check(prop, tier string) int {
 		for _, h := range s.Sigs {
 			sigset[h] = true
 		}
+		agg.Sigs = append(agg.Sigs, s.Sigs...)
 		if len(agg.Samples) < 3 {
 			agg.Samples = append(agg.Samples, s.Samples...)
 		}
@@ -450,6 +461,9 @@ func check(prop, tier string) int {
 		return 2
 	}
 
+	if meta.Race {
+		return finishRace(prop, tier, seed, meta, agg, scratch, kf, knownHere, start, workers)
+	}
 	viols = append(regressViol, viols...)
 	agg.Probes["regression_tapes_replayed"] = regressRuns
 	// distinct new violations
@@ -710,3 +724,178 @@ func determinism(prop string) int {
 	}
 	return 0
 }
+
+// ---------------------------------------------------------------- C20: race reports
+
+type raceReport struct {
+	Signature string
+	Funcs     [2]string
+	Text      string
+	Harness   bool
+}
+
+func frameOwner(fn string) string {
+	switch {
+	case strings.HasPrefix(fn, "github.com/enbility/ship-go/"):
+		return "ship-go"
+	case strings.HasPrefix(fn, "verif/simrt."):
+		// the simulator's replacements of Go primitives (range over a map, channel
+		// operations, locks) stand for the statement they replaced: look further out
+		return "runtime"
+	case strings.HasPrefix(fn, "verif/"):
+		return "harness"
+	case strings.HasPrefix(fn, "runtime.") || strings.HasPrefix(fn, "sync.") || strings.HasPrefix(fn, "sync/atomic.") || strings.HasPrefix(fn, "internal/") || strings.HasPrefix(fn, "reflect."):
+		return "runtime"
+	}
+	return "other"
+}
+
+// parseRaceLogs extracts the data race reports of all workers.
+func parseRaceLogs(scratch string) []raceReport {
+	files, _ := filepath.Glob(filepath.Join(scratch, "*.race.*"))
+	var out []raceReport
+	for _, f := range files {
+		raw, err := os.ReadFile(f)
+		if err != nil {
+			continue
+		}
+		for _, block := range strings.Split(string(raw), "==================") {
+			if !strings.Contains(block, "DATA RACE") {
+				continue
+			}
+			var stacks [][]string
+			var cur []string
+			in := false
+			for _, line := range strings.Split(block, "\n") {
+				t := strings.TrimSpace(line)
+				low := strings.ToLower(t)
+				if strings.HasPrefix(low, "write at") || strings.HasPrefix(low, "read at") || strings.HasPrefix(low, "previous write at") || strings.HasPrefix(low, "previous read at") || strings.HasPrefix(low, "atomic") || strings.HasPrefix(low, "previous atomic") {
+					if in {
+						stacks = append(stacks, cur)
+					}
+					cur, in = nil, true
+					continue
+				}
+				if t == "" || strings.HasPrefix(t, "Goroutine ") {
+					if in {
+						stacks = append(stacks, cur)
+						cur, in = nil, false
+					}
+					continue
+				}
+				if in && !strings.HasPrefix(t, "/") && !strings.Contains(t, ".go:") {
+					fn := t
+					if i := strings.LastIndex(fn, "("); i > 0 {
+						fn = fn[:i]
+					}
+					cur = append(cur, fn)
+				}
+			}
+			if in {
+				stacks = append(stacks, cur)
+			}
+			if len(stacks) < 2 {
+				continue
+			}
+			var r raceReport
+			r.Text = strings.TrimSpace(block)
+			ok := true
+			for i := 0; i < 2; i++ {
+				owner, fn := "", ""
+				for _, f := range stacks[i] {
+					o := frameOwner(f)
+					if o == "runtime" {
+						continue
+					}
+					owner, fn = o, f
+					break
+				}
+				if owner == "harness" {
+					r.Harness = true
+				}
+				if owner != "ship-go" {
+					ok = false
+				}
+				fn = strings.TrimPrefix(fn, "github.com/enbility/ship-go/")
+				for strings.HasSuffix(fn, ".func1") || strings.HasSuffix(fn, ".func2") || strings.HasSuffix(fn, ".func3") {
+					fn = fn[:strings.LastIndex(fn, ".")]
+				}
+				r.Funcs[i] = fn
+			}
+			if !ok && !r.Harness {
+				continue // third-party frames innermost: not a race on ship-go state by ship-go code
+			}
+			fs := []string{r.Funcs[0], r.Funcs[1]}
+			sort.Strings(fs)
+			r.Signature = "race:" + fs[0] + "|" + fs[1]
+			out = append(out, r)
+		}
+	}
+	return out
+}
+
+func finishRace(prop, tier string, seed uint64, meta PropMeta, agg WorkerSummary, scratch string, kf KnownFile, knownHere []KnownFinding, start time.Time, workers int) int {
+	reports := parseRaceLogs(scratch)
+	known := map[string]bool{}
+	for _, f := range knownHere {
+		known[f.Signature] = true
+	}
+	bySig := map[string]raceReport{}
+	count := map[string]int{}
+	harness := 0
+	for _, r := range reports {
+		if r.Harness {
+			harness++
+			if os.Getenv("VERIF_ALL_HARNESS_RACES") != "" {
+				fmt.Fprintf(os.Stderr, "HARNESS-RACE %s\n%s\n", r.Signature, tail(r.Text, 400))
+			}
+			if harness == 1 {
+				fmt.Fprintf(os.Stderr, "verifctl: the race detector reported a race with a harness frame innermost (harness defect, not a violation):\n%s\n", r.Text)
+			}
+			continue
+		}
+		count[r.Signature]++
+		if _, ok := bySig[r.Signature]; !ok {
+			bySig[r.Signature] = r
+		}
+	}
+	if harness > 0 {
+		return 2
+	}
+	var sigs []string
+	for s := range bySig {
+		sigs = append(sigs, s)
+	}
+	sort.Strings(sigs)
+	exit, nNew := 0, 0
+	for _, s := range sigs {
+		if known[s] {
+			agg.Known[s] = count[s]
+			continue
+		}
+		nNew++
+		r := bySig[s]
+		_ = os.MkdirAll(filepath.Join(verifDir, "replays"), 0o755)
+		path := filepath.Join(verifDir, "replays", fmt.Sprintf("%s-%d-%d.json", prop, seed, nNew))
+		rf := map[string]any{"property": prop, "signature": s, "clause": "data-race", "detail": "data race between " + r.Funcs[0] + " and " + r.Funcs[1],
+			"race_report": strings.Split(r.Text, "\n"), "seed": seed, "tier": tier, "occurrences": count[s],
+			"note": "parallel-round mode does not replay exactly; `bin/verifctl replay <this file>` re-runs the same seeds under -race and looks for the same pair of functions"}
+		b, _ := json.MarshalIndent(rf, "", " ")
+		_ = os.WriteFile(path, b, 0o644)
+		fmt.Printf("violation: %s (%d reports)\n", s, count[s])
+		fmt.Printf("VIOLATION property=%s replay=%s\n", prop, path)
+		exit = 1
+	}
+	for _, f := range knownHere {
+		fmt.Printf("KNOWN-FINDING: property=%s %s [signature %s; %d race report(s) in %d runs]\n", prop, f.What, f.Signature, count[f.Signature], agg.Runs)
+	}
+	agg.Probes["race_reports_total"] = len(reports)
+	agg.Probes["distinct_racing_function_pairs"] = len(sigs)
+	wallS := time.Since(start).Seconds()
+	// distinct = distinct workload signatures
+	writeEvidence(prop, tier, seed, meta, agg, distinctOf(agg), nNew, wallS, workers)
+	fmt.Printf("%s %s: %d runs under the race detector, %d parallel rounds, %d race report(s), %d distinct pair(s), %d new, %.1fs\n", prop, tier, agg.Runs, agg.Probes["parallel-rounds"], len(reports), len(sigs), nNew, wallS)
+	return exit
+}
+
+func distinctOf(agg WorkerSummary) int { return len(agg.Sigs) }
